@@ -50,10 +50,11 @@ class CommonJSONDecoder(json.JSONDecoder):
                 (isoformat, tzofs, tzname) = obj['type{datetime}']
                 parsed = datetime.datetime \
                     .strptime(isoformat, DATETIME_P_FORMAT + ('.%f' if '.' in isoformat else ''))
-                if tzname is not None:
-                    return datetime.datetime \
-                        .combine(parsed.date(), parsed.time(),
-                                 datetime.timezone(datetime.timedelta(seconds=tzofs), tzname))
+                if tzofs is not None:
+                    # zone-aware: the offset says so (a zone need not have a name)
+                    offset = datetime.timedelta(seconds=tzofs)
+                    zone = datetime.timezone(offset, tzname) if tzname is not None else datetime.timezone(offset)
+                    return datetime.datetime.combine(parsed.date(), parsed.time(), zone)
                 else:
                     return parsed
             except ValueError:
